@@ -24,12 +24,13 @@ NoObj == [cls |-> "none"]
 Empty == <<>>                    \* empty function (dict contents are functions key -> value token)
 
 (* ---------------- descriptor kinds and their token catalogues ---------------- *)
+SkyExtras == {"sAobs"}        \* the position sA with another observation time: a different value (extra frame attribute), not an error
 ValidTok(kind) ==
   CASE kind = "pos" -> {"f1_5", "i3", "npf2_5", "f4", "f4u"}                 \* f4u, a30u, q2degu: the next double after f4, a30, q2deg
     [] kind = "posn" -> {"i3", "f4", "i5"}
-    [] kind = "pix" -> {"pA", "pB", "pAc", "pAf"} \cup ExtraPix
+    [] kind = "pix" -> {"pA", "pB", "pAc", "pAf"} \cup (ExtraPix \ SkyExtras)
     [] kind = "pix1d" -> {"parr3", "parr4"}
-    [] kind = "sky" -> {"sA", "sB"}
+    [] kind = "sky" -> {"sA", "sB"} \cup (ExtraPix \cap SkyExtras)
     [] kind = "sky1d" -> {"sarr3", "sarr4"}
     [] kind = "ang" -> {"a0", "a30", "arad", "aAngle", "aneg", "a30am", "a30u"}
     [] kind = "posang" -> {"q1as", "q3am", "q2deg", "q180as", "q2degu"}
